@@ -272,6 +272,7 @@ def run(tier='quick'):
                         'naming the same kind of row (spec/domains.json, cross-checked with the declared foreign keys)',
                   floor=150)
     domains.apply_rule(prog, eff, chk, W7)
+    domains.apply_bind_rule(prog, cg, eff, chk, W7)
     W8 = chk.rule('W8', 'the per-version copies of the triggers that keep the 2.x sibling and entry chains and the '
                         'views over them are identical in every supported 2.x version', floor=5)
     c08.chain_trigger_siblings(prog, chk, W8, views=('playlistallparent', 'playlistallchildren', 'playlistpath'))
